@@ -78,14 +78,43 @@ def cases(tier, rng, schema, feats):
     return out
 
 
+def outcome(ans):
+    a = core.norm(ans)
+    if a == "buf 7f":
+        return "7f"
+    if a.startswith("buf 00"):
+        return "message"
+    return a
+
+
 def judge(line, m, i):
-    if core.norm(m) != core.norm(i):
-        return "model of the specification and implementation disagree"
+    # observation: complete message or exactly 7F, decided by whether the body fits; the body bytes themselves are C02's business
     if i and i.startswith("buf "):
         b = bytes.fromhex(i[4:])
         if not (b == b"\x7f" or (b and b[0] == 0)):
-            return "buffer holds neither a complete message nor exactly 7F"
+            return "buffer holds neither a complete message (status 00 first) nor exactly 7F"
+        if b and b[0] == 0 and len(b) > 1 and cbor.check_canonical(b[1:]) in ("truncated", "truncated head", "truncated string", "trailing bytes"):
+            return "body after the status byte is not one complete CBOR item (truncated or trailing bytes)"
+    if outcome(m) != outcome(i):
+        return f"fit decision differs: model of the specification gives {outcome(m)}, implementation {outcome(i)}"
+    if outcome(m) == "message" and m and i and len(m) != len(i):
+        return "message length differs from the model's complete message"
     return None
+
+
+def cross(results):
+    """the result must not depend on what the buffer held before the call"""
+    bad = []
+    seen = {}
+    for cid, (line, m, i) in results.items():
+        p = line.split("\t")
+        if p[1] != "enc2":
+            continue
+        key = (p[2], p[3], p[5])
+        if key in seen and seen[key][1] != i:
+            bad.append((line, seen[key][1], i, "result depends on the prior buffer contents (same response and capacity, different prior)"))
+        seen.setdefault(key, (line, i))
+    return bad
 
 
 def nontrivial(line, m):
